@@ -76,6 +76,9 @@ JudgeMap(e) ==
                                       mono |-> (i = 1 \/ v[i] = "far" \/ SLeq(e.do[k][i - 1].us, e.do[k][i].us))]],
                       <<>>, Idx(e.tracks))
       ebad == SelectSeq(evs, LAMBDA x : x.v \notin {"ok", "far"} \/ ~x.mono)
+      \* events handed out under a type filter (TracksReader.Only): each is an event of the unfiltered iteration (the harness
+      \* names it: track k, position i) and carries the very time that event has there -- which is judged above
+      fbad == SelectSeq(e.filt, LAMBDA x : ~(x.k \in 1..Len(e.do) /\ x.i \in 1..Len(e.do[x.k]) /\ x.us = e.do[x.k][x.i].us))
   IN IF qfar # <<>> THEN [ok |-> FALSE, info |-> [id |-> e.id, ev |-> "map", genbug |-> TRUE, what |-> "query beyond the horizon", k |-> qfar[1]]]
      ELSE IF qbad # <<>> THEN
        LET i == qbad[1] IN
@@ -90,6 +93,9 @@ JudgeMap(e) ==
        LET x == ebad[1] IN
        [ok |-> FALSE, info |-> [id |-> e.id, ev |-> "map", genbug |-> FALSE, what |-> IF x.mono THEN "event" ELSE "event-monotone", verdict |-> x.v,
                                 track |-> x.k, k |-> x.i, nbad |-> Len(ebad), tickl |-> x.t, got |-> e.do[x.k][x.i].us.d, neg |-> e.do[x.k][x.i].us.neg, res |-> e.res]]
+     ELSE IF fbad # <<>> THEN
+       [ok |-> FALSE, info |-> [id |-> e.id, ev |-> "map", genbug |-> FALSE, what |-> "event-under-filter", filter |-> fbad[1].f, track |-> fbad[1].k, k |-> fbad[1].i,
+                                nbad |-> Len(fbad), got |-> fbad[1].us.d, neg |-> fbad[1].us.neg, res |-> e.res]]
      ELSE [ok |-> TRUE, info |-> [id |-> e.id]]
 
 \* ---- Duration / Ticks
